@@ -664,8 +664,14 @@ tcptran_ep_close(void *arg)
 	NNI_LIST_FOREACH (&ep->negopipes, p) {
 		nni_pipe_close(p->npipe);
 	}
-	NNI_LIST_FOREACH (&ep->waitpipes, p) {
+	// Pipes that finished negotiating but were never handed to the
+	// socket still carry the reference taken for that hand-off.
+	while ((p = nni_list_first(&ep->waitpipes)) != NULL) {
+		nni_list_remove(&ep->waitpipes, p);
+		nni_mtx_unlock(&ep->mtx);
 		nni_pipe_close(p->npipe);
+		nni_pipe_rele(p->npipe);
+		nni_mtx_lock(&ep->mtx);
 	}
 	nni_mtx_unlock(&ep->mtx);
 }
